@@ -45,7 +45,7 @@ def rebase(src):
     return note
 if kind == "seeded":
     first = int(sys.argv[3])
-    rec_path = os.path.join(V, "validation", "batch6_seeded_first_run.json")
+    rec_path = os.path.join(V, "validation", "batch%s_seeded_first_run.json" % os.environ.get("ROUND", "6"))
     rec = json.load(open(rec_path)) if os.path.exists(rec_path) else {}
     for k in (1, 2, 3):
         src = f"/tmp/sa/{pid}-s/out/{k}"
@@ -65,7 +65,7 @@ if kind == "seeded":
         print(f"  first run: own={own} others={ {q: v for q, v in r['reported_by'].items() if q != pid} } finished={r['checks_finished']}")
     json.dump(dict(sorted(rec.items())), open(rec_path, "w"), indent=1)
 else:
-    rec_path = os.path.join(V, "validation", "round6_rewrites_first_run.json")
+    rec_path = os.path.join(V, "validation", "round%s_rewrites_first_run.json" % os.environ.get("ROUND", "6"))
     rec = json.load(open(rec_path)) if os.path.exists(rec_path) else {}
     base = f"/tmp/sa/{pid}-r/out"
     for d in sorted(os.listdir(base)) if os.path.exists(base) else []:
